@@ -253,3 +253,38 @@ func C09Scoping() {
 	vrt.Assert("all-methods-present", n == 4)
 	vrt.Reach("end")
 }
+
+// C09CrossMethod: several methods of one run copy into the same destination paths. What a method's
+// function does with a nested struct depends on ITS notations alone: without a notation on a member
+// the struct (same type on both sides) is copied as a whole, with one it is copied member by member
+// and the notation applied - whatever the methods built before it (in name order, across converter
+// interfaces) were told.
+func C09CrossMethod() {
+	var texts []string
+	var err error
+	stderr := vrt.CaptureStderr(func() { texts, err = frontHalf("cross") })
+	notes := []string{vrt.SlotText("cross", "A1"), vrt.SlotText("cross", "B1"), vrt.SlotText("cross", "C1")}
+	vrt.AssertMsg("accepted", err == nil && len(texts) == 3, stderr)
+	if err != nil || len(texts) != 3 {
+		return
+	}
+	for i, name := range []string{"Alpha", "Beta", "Gamma"} {
+		t := texts[i]
+		vrt.AssertMsg("functions-in-name-order", strings.Contains(t, "func "+name+"("), t)
+		whole := strings.Contains(t, "dst.Inner = src.Inner")
+		vrt.AssertMsg("nested-struct-copied-whole-iff-the-method-has-no-notation-on-a-member", whole == (notes[i] == ""), name+" ["+notes[i]+"]\n"+t)
+		switch notes[i] {
+		case ":skip Inner.Secret":
+			vrt.AssertMsg("own-notation-applied", strings.Contains(t, "// skip: dst.Inner.Secret") && !strings.Contains(t, "dst.Inner.Secret =") && strings.Contains(t, "dst.Inner.Public = src.Inner.Public"), t)
+		case ":skip Inner.Public":
+			vrt.AssertMsg("own-notation-applied", strings.Contains(t, "// skip: dst.Inner.Public") && !strings.Contains(t, "dst.Inner.Public =") && strings.Contains(t, "dst.Inner.Secret = src.Inner.Secret"), t)
+		case ":literal Inner.Secret \"x\"":
+			vrt.AssertMsg("own-notation-applied", strings.Contains(t, "dst.Inner.Secret = \"x\"") && strings.Contains(t, "dst.Inner.Public = src.Inner.Public"), t)
+		case ":map Name Inner.Secret":
+			vrt.AssertMsg("own-notation-applied", strings.Contains(t, "dst.Inner.Secret = src.Name") && strings.Contains(t, "dst.Inner.Public = src.Inner.Public"), t)
+		case ":map Name Inner.Public":
+			vrt.AssertMsg("own-notation-applied", strings.Contains(t, "dst.Inner.Public = src.Name") && strings.Contains(t, "dst.Inner.Secret = src.Inner.Secret"), t)
+		}
+	}
+	vrt.Reach("end")
+}
